@@ -13,6 +13,7 @@ import (
 	"encoding/binary"
 	"errors"
 	"fmt"
+	"unicode/utf8"
 
 	"github.com/btcsuite/btcutil/base58"
 
@@ -161,10 +162,19 @@ func PubKeyFromFingerprint(fingerprint string) ([]byte, uint64, error) {
 		return nil, 0, errors.New("unknown key encoding")
 	}
 
+	// The base58 library indexes its alphabet table with each character: anything outside ASCII must be rejected
+	// before it gets there (a byte that is not valid UTF-8 decodes to U+FFFD and panics the lookup).
+	for i := 1; i < len(fingerprint); i++ {
+		if fingerprint[i] >= utf8.RuneSelf {
+			return nil, 0, errors.New("unknown key encoding")
+		}
+	}
+
 	mc := base58.Decode(fingerprint[1:]) // skip leading "z"
 
+	// br == 0: buffer too small, br < 0: the varint overflows 64 bits
 	code, br := binary.Uvarint(mc)
-	if br == 0 {
+	if br <= 0 {
 		return nil, 0, errors.New("unknown key encoding")
 	}
 
@@ -174,7 +184,7 @@ func PubKeyFromFingerprint(fingerprint string) ([]byte, uint64, error) {
 
 	if code == BLS12381g1g2PubKeyMultiCodec {
 		// for BBS+ G1G2 did:key type, return the G2 public key only (discard G1 key for now).
-		if len(mc[br+g1CompressedSize:]) != bls12381G2PublicKeyLen {
+		if len(mc) < br+g1CompressedSize || len(mc[br+g1CompressedSize:]) != bls12381G2PublicKeyLen {
 			return nil, 0, errors.New("invalid bbs+ public key")
 		}
 
